@@ -259,19 +259,15 @@ class DAGRunConcurrentManager(DAGRunManagerLike):
                 u - Node
                 v - Node Edge
             """
-            return not self.dag.graph.edges[u, v].get(EdgeField.case_branch)
+            if self.dag.graph.edges[u, v].get(EdgeField.case_branch):
+                return False
 
-        def _filter_node(u: str) -> bool:
-            """
-            Delete nodes with NodeField.is_oneof_child from subgraph_view
-
-            Args:
-                u -  Node
-            """
-            return not self.dag.graph.nodes[u].get(NodeField.is_oneof_child) or (is_oneof and u == dest)
+            # The candidates of a one-of are executed by the one-of itself, one by one. A candidate stays
+            # in the subgraph only if some node depends on it directly.
+            return u not in self.dag.graph.nodes[v].get(NodeField.oneof_nodes, ())
 
         return get_connected_subgraph(
-            dag=nx.subgraph_view(self.dag.graph, filter_edge=_filter, filter_node=_filter_node),
+            dag=nx.subgraph_view(self.dag.graph, filter_edge=_filter),
             source=source,
             dest=dest,
             is_recurrent=is_recurrent,
@@ -432,9 +428,13 @@ class DAGRunConcurrentManager(DAGRunManagerLike):
         if not dag.is_recurrent:
             # The cases of a switch are executed by the switch itself and only the selected one. A case that belongs
             # to the dag for another reason (it is also consumed directly) is not a dependency of the switch node.
+            # The same goes for the candidates of a one-of.
+            oneof_nodes = self.dag.graph.nodes[node_id].get(NodeField.oneof_nodes, ())
+
             node_predecessors = {
                 pred_node_id for pred_node_id in node_predecessors
                 if not self.dag.graph.edges[pred_node_id, node_id].get(EdgeField.case_branch)
+                and pred_node_id not in oneof_nodes
             }
 
         current_dag = set(nx.topological_sort(dag))
@@ -781,6 +781,11 @@ class DAGRunConcurrentManager(DAGRunManagerLike):
 
             if node_id == dag.dest:
                 logger.debug('The node %s is an output node', node_id)
+                await self.__unlock_itself(node_id)
+
+            elif self.dag.graph.nodes[node_id].get(NodeField.is_oneof_child):
+                # The candidate of a one-of has been executed as an ordinary node of another sub-pipeline,
+                # and the one-of may be waiting for this very node.
                 await self.__unlock_itself(node_id)
 
     async def __unlock_itself(self, node_id: NodeId) -> None:
